@@ -88,6 +88,19 @@ Proof.
     + repeat split; try lia; auto.
 Qed.
 
+(* a record without fields: size 0, alignment 1 or the requested one *)
+Lemma rec_finish_empty packed aligned :
+  match aligned with Some A => p2 A | None => True end ->
+  fagree (nl_rec_finish O packed aligned 0 1)
+         (let align := match aligned with Some A => Z.max 1 A | None => 1 end in (roundup 0 align, align)).
+Proof.
+  intros Hal. unfold nl_rec_finish, fagree. rewrite emptysize_0. cbn [Z.eqb].
+  destruct aligned as [A|]; cbn [fst snd].
+  - pose proof (p2_pos _ Hal). rewrite roundup_id by (try lia; apply Z.mod_0_l; lia).
+    rewrite (Z.max_l _ 0) by lia. rewrite (Z.max_comm A 1). repeat split; try lia. apply p2_max; auto using p2_1.
+  - rewrite roundup_1. cbn. repeat split; try lia; auto using p2_1.
+Qed.
+
 (* ---------- unions ---------- *)
 Definition Runi (sn sc : Z * Z) : Prop := sn = sc /\ 0 <= fst sc /\ p2 (snd sc).
 Lemma uni_fold_ok ns cs : Forall2 fagree ns cs -> forall sn sc, Runi sn sc ->
@@ -121,29 +134,28 @@ Proof.
     destruct (fold_left (nl_rec_step packed) (map nl fs) (0, 1, [])) as [[no na] noffs] eqn:En.
     destruct (fold_left (c_rec_step packed) (map cl fs) (0, 1, [])) as [[co ca] coffs] eqn:Ec.
     destruct HR as (E & Ho & Hp). inversion E; subst. cbn [fst snd] in *.
+    assert (HA : match aligned with Some A => p2 A | None => True end).
+    { destruct aligned as [A|]; [|exact I]. apply andb_prop in Hal. destruct Hal as (Hp2 & Hle).
+      apply is_pow2_small; [exact Hp2|lia]. }
     destruct fs as [|f fs'].
-    + cbn in En. inversion En; subst. cbn [length nl_rec_finish].
-      destruct aligned as [A|].
-      * exfalso. cbn [length Nat.eqb negb] in Hal. rewrite andb_false_r in Hal. discriminate.
-      * rewrite emptysize_0, roundup_1. unfold fagree. cbn. repeat split; try lia; auto using p2_1.
+    + cbn in En, Ec. inversion En; inversion Ec; subst. cbn [length]. apply rec_finish_empty. exact HA.
     + cbn [length]. apply rec_finish_ok; auto.
-      * intros ->. rewrite En in Hpk. exact Hpk.
-      * destruct aligned as [A|]; [|exact I].
-        apply andb_prop in Hal. destruct Hal as (Hal & _). apply andb_prop in Hal. destruct Hal as (Hp2 & Hle).
-        apply is_pow2_small; [exact Hp2|lia].
-  - cbn [wfb] in Hwf. apply andb_prop in Hwf. destruct Hwf as (Hall & Hnz).
+      intros ->. rewrite En in Hpk. exact Hpk.
+  - cbn [wfb] in Hwf. rename Hwf into Hall.
     assert (HF : Forall agree fs).
     { rewrite forallb_forall in Hall. rewrite Forall_forall in *. intros x Hx. apply IH; auto. }
     assert (Hi : Runi (0, 1) (0, 1)) by (unfold Runi; cbn; repeat split; try lia; auto using p2_1).
     pose proof (uni_fold_ok _ _ (Forall2_map_agree fs HF) _ _ Hi) as HR.
-    cbn [cl] in Hnz. cbn [nl cl].
+    cbn [nl cl].
     destruct (fold_left _ (map nl fs) (0, 1)) as [s a].
     destruct (fold_left _ (map cl fs) (0, 1)) as [s' a'].
     destruct HR as (E & Hs & Hp). inversion E; subst. cbn [fst snd] in *.
     pose proof (p2_pos _ Hp). unfold nl_uni_finish, fagree.
     destruct (roundup_spec s' a' ltac:(lia) Hs) as (_ & L & _).
+    rewrite emptysize_0.
     destruct (s' =? 0) eqn:E0.
-    + exfalso. assert (s' = 0) by lia. subst. rewrite roundup_id in Hnz by (try lia; apply Z.mod_0_l; lia). discriminate.
+    + assert (s' = 0) by lia. subst. rewrite roundup_id by (try lia; apply Z.mod_0_l; lia).
+      rewrite Z.max_l by lia. cbn [fst snd]. repeat split; try lia; auto.
     + rewrite align_forward_roundup by lia. cbn [fst snd]. repeat split; try lia; auto.
 Qed.
 
